@@ -509,6 +509,84 @@ def run(tier, seed):
     if len(set(res.values())) != 1 or "raised" in next(iter(res.values())):
         fails += 1
         rep.violation("neutrality:scoped_iter", {"why": "scoped_iter block results depend on the flavour of the iterable: %r" % (res,)})
+    # any_iter / await_each: which items are awaited depends on the items (plain, coroutine, an object with __await__),
+    # never on whether the container is a regular or an asynchronous iterable
+    class _AwItem:
+        def __init__(self, v):
+            self.v = v
+
+        def __await__(self):
+            return self.v
+            yield
+
+    def _items(kind):
+        async def co(v):
+            return v
+        return [(co(v) if kind == "coroutine" else _AwItem(v) if kind == "awaitobj" else (_AwItem(v) if v % 2 else v) if kind == "mixed" else v) for v in (1, 2, 3)]
+    for tool_name, tool in (("any_iter", a.any_iter), ("await_each", a.await_each)):
+        for kind in ("plain", "coroutine", "awaitobj", "mixed"):
+            if tool_name == "await_each" and kind in ("plain", "mixed"):
+                continue            # await_each takes awaitables only
+            res = {}
+            # (await_each is documented for a regular iterable of awaitables only)
+            for fl in (ITER_FLAVOURS if tool_name == "any_iter" else ["list", "getitem", "sync_iter"]):
+                its = _items(kind)
+
+                async def run_it():
+                    return [x async for x in tool(flavoured_source(None, 0, its, fl) if fl != "async_class" else flavoured_source(None, 0, its, "async_gen"))]
+                try:
+                    res[fl] = repr(drive(run_it()))
+                except BaseException as e:  # noqa
+                    res[fl] = "raised %r" % (e,)
+                for x in its:
+                    if inspect.iscoroutine(x):
+                        x.close()
+                rep.count((tool_name + "-flavour", kind, fl), True)
+            if builtins.any(v != "[1, 2, 3]" for v in res.values()):
+                fails += 1
+                rep.violation("neutrality:%s" % tool_name, {"items": kind, "why": "%s over %s items gives, per flavour of the iterable: %r" % (tool_name, kind, res)})
+    # ExitStack.enter_context: a manager whose entering fails is not exited and its exception propagates, the same for a
+    # regular and an asynchronous context manager
+    res = {}
+    for fl in ("sync", "async"):
+        log = []
+
+        class _Boom(Exception):
+            pass
+
+        class _SCM:
+            def __enter__(self):
+                log.append("enter")
+                raise _Boom()
+
+            def __exit__(self, *exc):
+                log.append("exit")
+                return True
+
+        class _ACM:
+            async def __aenter__(self):
+                log.append("enter")
+                raise _Boom()
+
+            async def __aexit__(self, *exc):
+                log.append("exit")
+                return True
+
+        async def enter_fails():
+            try:
+                async with a.ExitStack() as st:
+                    await st.enter_context(_SCM() if fl == "sync" else _ACM())
+                return "suppressed"
+            except _Boom:
+                return "propagated"
+        try:
+            res[fl] = (drive(enter_fails()), list(log))
+        except BaseException as e:  # noqa
+            res[fl] = ("raised %r" % (e,), list(log))
+        rep.count(("enter_context-fails", fl), True)
+    if res["sync"] != res["async"] or res["sync"] != ("propagated", ["enter"]):
+        fails += 1
+        rep.violation("neutrality:enter_context", {"why": "a context manager whose entering raises, given to ExitStack.enter_context (outcome, calls): %r" % (res,)})
     # every public callable is async-shaped for synchronous arguments
     probes = api_probes()
     for nm in a.__all__:
